@@ -31,7 +31,7 @@ BOUNDED = {
     r'draws_not_memoised': 'call chains inside pyxel/models up to depth 6',
 }      # unit-name / obligation-name patterns -> the family these obligations are proved for
 TRUSTED = ["determinism of everything that is not the legacy global generator (numba kernels, dask graph construction, pygmo given its seeds)",
-           "np.random.Generator objects (default_rng) are private state", "threads sharing the global generator (dask threaded scheduler) are outside the sequential semantics (C07)",
+           "np.random.Generator objects (default_rng) are private state; on the call chain of a seeded model they must be seeded from a number (obligation model.private_generator_seeded), elsewhere (calibration start seed drawn at random when none is given) they are outside", "threads sharing the global generator (dask threaded scheduler) are outside the sequential semantics (C07)",
            "model.frame / no_reseed / flow are frame and data-flow obligations decided on the AST and call graph (no arithmetic involved)"]
 
 SEED_REPLAY = lambda w: {"code": """
